@@ -285,6 +285,41 @@ def _id_case(repo, it, S, spec):
         k, v = run(it, f, ["g3_sym"], {}, ac)
         if k != "ok" or member_ids(v) != ["g3"]:
             out.append(("query_by_feature_identifiers", f"query_by_feature_identifiers('g3_sym') -> {k}:{member_ids(v) if k == 'ok' else v}", f.qual))
+    if which == "children":
+        # the three kinds of children by name (any case), anything else refused; a variant collection narrowed to some of its
+        # variants keeps exactly those, in position order, under its own identity
+        small, sg, sf = build(it, S, SMALL, None)
+        f = repo.fn(f"{AC}.get_children_by_type")
+        sg, sf = list(small.fields["genes"]), list(small.fields["feature_collections"])
+        for arg, want in (("transcript", sg), ("TRANSCRIPT", sg), ("feature", sf), ("Feature", sf), ("variant", list(small.fields.get("variant_collections") or []))):
+            n += 1
+            k, v = run(it, f, [arg], {}, small)
+            if k != "ok" or [id(x) for x in v] != [id(x) for x in want]:
+                out.append(("get_children_by_type", f"get_children_by_type({arg!r}) -> {k}:{[getattr(x, 'cls_name', x) for x in v] if k == 'ok' else v}; "
+                            f"expected the collection's own {len(want)} {arg.lower()} children", f.qual))
+        n += 1
+        k, v = run(it, f, ["gene"], {}, small)
+        if not (k == "raise" and v == "InvalidQueryError"):
+            out.append(("get_children_by_type refusal", f"get_children_by_type('gene') -> {k}:{v}; documented InvalidQueryError", f.qual))
+        vq = repo.fn("gene.variants:VariantIntervalCollection.query_by_guids")
+        mkv = lambda s_, e, alt, nm: it.apply(ClassTok("VariantInterval"), [s_, e, alt, "SNV"], {"variant_name": nm}, None, 0)  # noqa: E731
+        vs = [mkv(30, 31, "T", "c"), mkv(5, 6, "G", "a"), mkv(12, 14, "", "b")]
+        vc = it.apply(ClassTok("VariantIntervalCollection"), [vs], {"variant_collection_id": "vc", "variant_collection_name": "vcn",
+                                                                     "qualifiers": {"k": ["v"]}}, None, 0)
+        gs = {v_.fields["variant_name"]: v_.fields["guid"] for v_ in vs}
+        for sub in (["a"], ["c", "a"], ["b", "c", "a"], ["b"]):
+            for extra in ([], [stranger]):
+                n += 1
+                k, v = run(it, vq, [[gs[x] for x in sub] + extra], {}, vc)
+                want = sorted(sub, key=lambda x: {"a": 5, "b": 12, "c": 30}[x])
+                got = [x.fields["variant_name"] for x in v.fields["variant_intervals"]] if k == "ok" and isinstance(v, Obj) else v
+                if k != "ok" or got != want or v.fields.get("variant_collection_id") != "vc" or str(v.fields.get("guid")) != str(vc.fields.get("guid")):
+                    out.append(("variant collection query_by_guids", f"VariantIntervalCollection.query_by_guids({sub}{' + unknown guid' if extra else ''}) -> {k}:{got}; "
+                                f"expected the variants {want} under the collection's own id and guid", vq.qual))
+        n += 1
+        k, v = run(it, vq, [gs["b"]], {}, vc)
+        if k != "ok" or [x.fields["variant_name"] for x in v.fields["variant_intervals"]] != ["b"]:
+            out.append(("variant collection query_by_guids", f"VariantIntervalCollection.query_by_guids(single UUID) -> {k}", vq.qual))
     return n, out
 
 
@@ -361,10 +396,11 @@ def rk_position(ctx):
 
 def rk_ids(ctx):
     from ..par import pmap
-    results = pmap(_runner(ctx.repo, _id_case), [("guids",), ("interval_guids",), ("identifiers",)], min_items=2)
+    results = pmap(_runner(ctx.repo, _id_case), [("guids",), ("interval_guids",), ("identifiers",), ("children",)], min_items=2)
     _report(ctx, "C09.RI", results, [(f"{AC}.{m}", "exact members for every subset") for m in (
         "query_by_guids", "query_by_interval_guids", "query_by_transcript_interval_guids", "query_by_feature_interval_guids",
-        "query_by_feature_identifiers")])
+        "query_by_feature_identifiers")] + [(f"{AC}.get_children_by_type", "the three kinds of children by name"),
+                                            ("gene.variants:VariantIntervalCollection.query_by_guids", "exact variants under the collection's identity")])
 
 
 def r7_union_interface(ctx):
